@@ -131,6 +131,47 @@ def regfuture_add_int_mod(conn, q, arr, reg):
     return [reg.reg]
 
 
+def future_add_any_int(conn, q, arr, reg, k=3):
+    arr.get_future_index(0).add(k)
+    return []
+
+
+def future_add_any_int_mod(conn, q, arr, reg, k=3, m=2):
+    arr.get_future_index(0).add(k, mod=m)
+    return []
+
+
+def regfuture_add_any_int(conn, q, arr, reg, k=1):
+    reg.add(k)
+    return [reg.reg]
+
+
+def regfuture_add_any_int_mod(conn, q, arr, reg, k=1, m=2):
+    reg.add(k, mod=m)
+    return [reg.reg]
+
+
+def enumerate_add_any_int(conn, q, arr, reg, k=1):
+    with arr.enumerate() as (i, v):
+        v.add(k)
+    return []
+
+
+def measure_into_register_then_flush(conn, q, arr, reg):
+    q.measure(store_array=False, inplace=True)
+    conn._builder.subrt_pop_pending_subroutine()
+    conn._builder._reset()
+    return "flushed"
+
+
+def two_register_measurements_then_flush(conn, q, arr, reg):
+    q.measure(store_array=False, inplace=True)
+    q.measure(store_array=False, inplace=True)
+    conn._builder.subrt_pop_pending_subroutine()
+    conn._builder._reset()
+    return "flushed"
+
+
 def measure_into_array(conn, q, arr, reg):
     q.measure(inplace=True)
     return []
@@ -180,6 +221,13 @@ OPS = {
     "Future.add(Future, mod)": future_add_future_mod,
     "Future.add on Future-indexed entry": future_add_on_future_indexed_entry,
     "RegFuture.add(int, mod)": regfuture_add_int_mod,
+    "Future.add(any int)": future_add_any_int,
+    "Future.add(any int, any mod)": future_add_any_int_mod,
+    "RegFuture.add(any int)": regfuture_add_any_int,
+    "RegFuture.add(any int, any mod)": regfuture_add_any_int_mod,
+    "enumerate + add(any int)": enumerate_add_any_int,
+    "measure into a register + flush": measure_into_register_then_flush,
+    "two measurements into registers + flush": two_register_measurements_then_flush,
     "measure into array": measure_into_array,
     "measure into future": measure_into_future,
     "measure into Future-indexed entry": measure_into_future_indexed_entry,
